@@ -23,9 +23,12 @@ RULE = ('every unordered pair (and listed triples) of thread programs {build '
         'with a slow callable, edits inside/outside suspend_tracking, nested '
         'suspend blocks, deepcopy, dump_json, first use of a fresh callable '
         'shared by the threads, failing build with a fresh exception class, '
-        '==, nested-build attempt} under every schedule with at most k '
+        '==, nested-build attempt, switching tracking off without restoring '
+        'it} under every schedule with at most k '
         'preemptions at any Fiddle source line (plus every start / '
-        'continuation order); a schedule is an execution; states = distinct '
+        'continuation order); plus every sequence of <= 3 programs run in '
+        'threads that live one after the other (identifier / thread-local '
+        'recycling); a schedule is an execution; states = distinct '
         'observation vectors')
 ASSUMPTIONS = [
     'reduction: a thread is preempted only at the first K dynamic occurrences '
@@ -155,8 +158,11 @@ def p_failing_build(sh, tag):
     fdl.build(cfg)
     out = 'no-exception'
   except Exception as e:  # pylint: disable=broad-except
+    import traceback  # pylint: disable=g-import-not-at-top
     out = (isinstance(e, sh.exc), str(e).startswith('boom'),
-           '<root>.x' in str(e))
+           '<root>.x' in str(e), type(e).__name__,
+           type(e).__qualname__ == sh.exc.__qualname__,
+           traceback.format_exception_only(type(e), e)[-1].split(':')[0])
   again = fdl.build(fdl.Config(N.node, x=tag))
   return dict(escaped=repr(out), again=again.bound['x'], ids=seq_ids(cfg))
 
@@ -217,7 +223,18 @@ def p_suspend_nested(sh, tag):
   return dict(flags=seen, ids=[])
 
 
+def p_quiet(sh, tag):
+  """Switches tracking off for this thread and ends without restoring it."""
+  cfg = fdl.Config(N.node)
+  history.set_tracking(enabled=False)
+  sched.point('tracking-off')
+  cfg.x = tag
+  return dict(hist=hist_shape(cfg), tracking=history.tracking_enabled(),
+              ids=seq_ids(cfg))
+
+
 PROGRAMS = {
+    'quiet': p_quiet,
     'suspend_single': p_suspend_single, 'suspend_nested': p_suspend_nested,
     'build_slow': p_build_slow, 'edits': p_edits,
     'nested_suspend': p_nested_suspend, 'deepcopy': p_deepcopy,
@@ -225,7 +242,7 @@ PROGRAMS = {
     'failing_build': p_failing_build, 'eq': p_eq,
     'nested_build': p_nested_build,
 }
-SMALL = ['suspend_single', 'suspend_nested']
+SMALL = ['suspend_single', 'suspend_nested', 'quiet']
 SHORT = ['build_slow', 'edits', 'nested_suspend', 'fresh_callable',
          'failing_build', 'nested_build']
 
@@ -256,19 +273,24 @@ def units(tier, seed):
     out += [('combo', list(c), b['deep_bound'], 1)
             for c in itertools.combinations_with_replacement(SHORT, 2)]
   out += [('combo', list(t), 1, 1) for t in b['triples']]
+  out += [('lifetimes', k) for k in range(4)]
   # long explorations first
-  out.sort(key=lambda u: -(len(u[1]) * 10 + u[2] * 5 + (
-      'dump_json' in u[1]) * 3))
+  out.sort(key=lambda u: 0 if u[0] == 'lifetimes' else -(
+      len(u[1]) * 10 + u[2] * 5 + ('dump_json' in u[1]) * 3))
   return out
 
 
 def solo(name):
   """The observation of a program running alone from a fresh state."""
+  import threading  # pylint: disable=g-import-not-at-top
   sh = Shared()
   vfx.reset()
   prior_history()
-  obs = PROGRAMS[name](sh, 'T')
-  obs = dict(obs)
+  box = {}
+  t = threading.Thread(target=lambda: box.update(PROGRAMS[name](sh, 'T')))
+  t.start()
+  t.join(60)
+  obs = dict(box)
   obs.pop('ids')
   return obs
 
@@ -363,8 +385,75 @@ def run_combo(names, bound, res, only_schedule=None, occurrence_cap=None):
               'distinct_observation_vectors': len(observations)}, limit=3)
 
 
+LIFE = ['quiet', 'edits', 'suspend_nested', 'nested_suspend', 'failing_build',
+        'fresh_callable', 'build_slow']
+
+
+def run_lifetimes(k, res, only=None):
+  """Threads that live one after the other (each is started after the
+  previous one has ended, so the interpreter may recycle thread identifiers
+  and thread-local storage): every sequence of up to three programs; each
+  thread observes what it observes alone."""
+  import threading  # pylint: disable=g-import-not-at-top
+  expected = {n: solo(n) for n in LIFE}
+  seqs = [s for ln in (2, 3) for s in itertools.product(LIFE, repeat=ln)]
+  for idx, seq in enumerate(seqs):
+    if only is not None:
+      if list(seq) != only:
+        continue
+    elif idx % 4 != k:
+      continue
+    sh = Shared()
+    vfx.reset()
+    prior_history()
+    res.states += 1
+    res.evals += 1
+    res.nontrivial += 1
+    idents = []
+    for pos, name in enumerate(seq):
+      box = {}
+      def body(name=name, box=box):
+        try:
+          box['obs'] = PROGRAMS[name](sh, 'T')
+        except BaseException as e:  # pylint: disable=broad-except
+          box['err'] = repr(e)
+        box['ident'] = threading.get_ident()
+      t = threading.Thread(target=body)
+      t.start()
+      t.join(60)
+      res.transitions += 1
+      idents.append(box.get('ident'))
+      case = {'lifetimes': list(seq), 'position': pos}
+      if 'err' in box or 'obs' not in box:
+        res.violation(f'C19/sequential-thread-raised/{name}',
+                      f'{case}: {box.get("err")}', case)
+        break
+      obs = dict(box['obs'])
+      obs.pop('ids')
+      if obs != expected[name]:
+        diff = {kk: (obs.get(kk), expected[name].get(kk)) for kk in obs
+                if obs.get(kk) != expected[name].get(kk)}
+        res.violation(
+            f'C19/thread-started-after-another-ended-observes-its-state/'
+            f'{name}/{"+".join(sorted(diff))}',
+            f'{case}: thread {pos} ({name}) observed {diff} (observed, alone)',
+            case)
+        break
+      if not history.tracking_enabled():
+        res.violation('C19/main-thread-tracking-flag-changed', f'{case}', case)
+        history.set_tracking(enabled=True)
+        break
+    if len(set(idents)) < len(idents):
+      res.counters['lifetime_sequences_with_recycled_thread_ident'] += 1
+    res.outcomes['lifetimes:' + str(len(seq))] += 1
+
+
 def run_unit(unit, tier, seed):
   res = core.Result()
+  if unit[0] == 'lifetimes':
+    history.set_tracking(enabled=True)
+    run_lifetimes(unit[1], res)
+    return res
   _, names, bound, cap = unit
   history.set_tracking(enabled=True)
   run_combo(names, bound, res, occurrence_cap=cap)
@@ -373,6 +462,11 @@ def run_unit(unit, tier, seed):
 
 def replay(case):
   res = core.Result()
+  if 'lifetimes' in case:
+    run_lifetimes(0, res, only=case['lifetimes'])
+    for v in res.violations:
+      print(v['what'])
+    return res
   switches = {int(k): v for k, v in case['switches'].items()}
   run_combo(case['programs'], case['preemption_bound'], res,
             only_schedule=(tuple(case['order']), switches))
